@@ -78,7 +78,7 @@ func TestKVConcurrent(t *testing.T) {
 			continue
 		}
 		for round := 0; round < in.Rounds; round++ {
-			st, err := be.open("")
+			st, err := be.mk()("")
 			if err != nil {
 				t.Fatal(err)
 			}
